@@ -150,10 +150,19 @@ pub struct Case {
 
 impl Case {
     pub fn options(&self) -> ResizeOptions {
-        let mut o = ResizeOptions::new().resize_alg(self.alg.alg).use_alpha(self.alpha);
+        // documented defaults are relied upon, not restated: alpha handling on, Convolution(Lanczos3),
+        // centering (0.5, 0.5)
+        let mut o = ResizeOptions::new();
+        if self.alg.alg != ResizeAlg::Convolution(FilterType::Lanczos3) {
+            o = o.resize_alg(self.alg.alg);
+        }
+        if !self.alpha {
+            o = o.use_alpha(false);
+        }
         match self.crop {
             CropSpec::None => {}
             CropSpec::Box(l, t, w, h) => o = o.crop(l, t, w, h),
+            CropSpec::Fit(x, y) if x == 0.5 && y == 0.5 => o = o.fit_into_destination(None),
             CropSpec::Fit(x, y) => o = o.fit_into_destination(Some((x, y))),
         }
         o
@@ -313,31 +322,54 @@ fn run_dynamic(case: &Case, resizer: &mut Resizer, sbytes: &[u8], dbytes: &mut V
         dbytes.copy_from_slice(&dslice[..dlen]);
         return r;
     }
-    let simg = ImageRef::new(sw, sh, sslice, case.pt).unwrap();
-    let r = {
-        let mut dimg = Image::from_slice_u8(dw, dh, dslice, case.pt).unwrap();
-        let sc = shape_crops(&case.sshape);
-        let dc = shape_crops(&case.dshape);
-        match (sc.len(), dc.len()) {
-            (0, 0) => resizer.resize(&simg, &mut dimg, &opts),
-            (_, 0) => {
-                let s1 = CroppedImage::new(&simg, sc[0].0, sc[0].1, sc[0].2, sc[0].3).unwrap();
-                resizer.resize(&s1, &mut dimg, &opts)
-            }
-            (0, _) => {
-                let mut d1 = CroppedImageMut::new(&mut dimg, dc[0].0, dc[0].1, dc[0].2, dc[0].3).unwrap();
-                resizer.resize(&simg, &mut d1, &opts)
-            }
-            (_, _) => {
-                let s1 = CroppedImage::new(&simg, sc[0].0, sc[0].1, sc[0].2, sc[0].3).unwrap();
-                let mut d1 = CroppedImageMut::new(&mut dimg, dc[0].0, dc[0].1, dc[0].2, dc[0].3).unwrap();
-                resizer.resize(&s1, &mut d1, &opts)
-            }
+    // the source container rotates between a borrowed ImageRef, an owned Image built from a Vec, and a copy()
+    // of a borrowed Image: the result must not depend on who owns the bytes (C13)
+    let kind = (sw as usize + 2 * sh as usize + dw as usize) % 3;
+    let owned: Option<Image<'static>> = match kind {
+        1 => Image::from_vec_u8(sw, sh, sslice.to_vec(), case.pt).ok(),
+        2 => Image::from_slice_u8(sw, sh, sslice, case.pt).ok().map(|i| i.copy()),
+        _ => None,
+    };
+    let r = match &owned {
+        Some(img) => dyn_tail(case, resizer, img, dw, dh, dslice, &opts),
+        None => {
+            let simg = ImageRef::new(sw, sh, sslice, case.pt).unwrap();
+            dyn_tail(case, resizer, &simg, dw, dh, dslice, &opts)
         }
     };
     assert!(dslice[dlen..].iter().all(|&b| b == 0xEE), "spare bytes behind the destination image were changed");
     dbytes.copy_from_slice(&dslice[..dlen]);
     r
+}
+
+fn dyn_tail<S: fir::IntoImageView>(
+    case: &Case,
+    resizer: &mut Resizer,
+    simg: &S,
+    dw: u32,
+    dh: u32,
+    dslice: &mut [u8],
+    opts: &ResizeOptions,
+) -> Result<(), fir::ResizeError> {
+    let mut dimg = Image::from_slice_u8(dw, dh, dslice, case.pt).unwrap();
+    let sc = shape_crops(&case.sshape);
+    let dc = shape_crops(&case.dshape);
+    match (sc.len(), dc.len()) {
+        (0, 0) => resizer.resize(simg, &mut dimg, opts),
+        (_, 0) => {
+            let s1 = CroppedImage::new(simg, sc[0].0, sc[0].1, sc[0].2, sc[0].3).unwrap();
+            resizer.resize(&s1, &mut dimg, opts)
+        }
+        (0, _) => {
+            let mut d1 = CroppedImageMut::new(&mut dimg, dc[0].0, dc[0].1, dc[0].2, dc[0].3).unwrap();
+            resizer.resize(simg, &mut d1, opts)
+        }
+        (_, _) => {
+            let s1 = CroppedImage::new(simg, sc[0].0, sc[0].1, sc[0].2, sc[0].3).unwrap();
+            let mut d1 = CroppedImageMut::new(&mut dimg, dc[0].0, dc[0].1, dc[0].2, dc[0].3).unwrap();
+            resizer.resize(&s1, &mut d1, opts)
+        }
+    }
 }
 
 pub fn dynamic_ok(case: &Case) -> bool {
